@@ -175,6 +175,13 @@ def idleSubStep (obs : String) : Option String :=
   | some l, some d, some b => idleSubLaw l d b
   | _, _, _ => some s!"bad-observation {obs}"
 
+def gburstStep (obs : String) : Option String :=
+  match fieldNat obs "late", fieldNat obs "floorviol", fieldNat obs "lost", fieldNat obs "dup" with
+  | some la, some fv, some l, some d =>
+    gburstLaw la fv l d ((fieldInt obs "core").getD (-1)) ((fieldInt obs "badlow").getD (-1))
+      ((fieldInt obs "badpeak").getD (-1)) ((fieldInt obs "badtrial").getD (-1))
+  | _, _, _, _ => some s!"bad-observation {obs}"
+
 def handoffStep (cfg : Cfg) (fire : Bool) (obs : String) : Option String :=
   match fieldNat obs "early", fieldNat obs "cstart", fieldNat obs "hangs", fieldInt obs "badround" with
   | some e, some cs, some h, some br => handoffLaw e cs h br (classify cfg fire 3 0 0)
@@ -247,6 +254,7 @@ def checker (model : Bool) : Checker where
         else if kind == "aim" then (none, aimStep c obs)
         else if kind == "burst" then (none, burstStep c obs)
         else if kind == "idlesub" then (none, idleSubStep obs)
+        else if kind == "gburst" then (none, gburstStep obs)
         else if kind == "handoff" then (none, handoffStep c (shortIdle op) obs)
         else (none, some s!"bad-kind {kind}")
     | _ =>
